@@ -8,7 +8,7 @@
 #include <unistd.h>
 static int g_pagesize_calls; static int g_pagesize[3];
 extern "C" int getpagesize(void) noexcept { int i = g_pagesize_calls < 2 ? g_pagesize_calls : 2; g_pagesize_calls++; return g_pagesize[i]; }
-#include "../../../repo/asmjit/core/virtmem.cpp"
+#include <asmjit/core/virtmem.cpp>
 using namespace asmjit;
 
 HARNESS h_vm_info_idempotent() {
